@@ -275,8 +275,16 @@ func (r *checkResult) writeEvidence(o *checkOpts) error {
 	}
 	var slowest []slow
 	var samples []interface{}
+	var knownObls []string
 	for _, ob := range r.Obls {
 		solverTime += ob.TimeS
+		if ob.Expect == "unsat" && ob.Region == "known" {
+			// an obligation that fails because of a recorded open finding: reported as a known
+			// finding, not part of what this run claims to have proved
+			knownObls = append(knownObls, ob.Name)
+			slowest = append(slowest, slow{ob.Name, ob.TimeS, ob.Solver})
+			continue
+		}
 		if ob.Expect == "unsat" {
 			nProof++
 			if fe := perFn[ob.Fn]; fe != nil {
@@ -346,6 +354,7 @@ func (r *checkResult) writeEvidence(o *checkOpts) error {
 		"vacuity":                  map[string]interface{}{"cover_and_presat_obligations": nCover, "satisfiable": nCoverOK, "must_fail_mutants_rejected": r.MutantsKilled, "must_fail_mutants_total": r.MutantsTotal},
 		"samples":                  samples,
 		"known_findings":           known,
+		"obligations_failing_as_recorded_open_findings": knownObls,
 		"failed_obligations":       viol,
 		"not_decided":              notDecided[r.Property],
 		"bounded_standins":         []string{},
